@@ -77,6 +77,9 @@ func (s *scLife) Configure(w *World) {
 			}
 		}
 		c.W.Commit = 3
+		if c.ConsumerMode != "deferred" && t.Draw(2, nil) == 0 {
+			c.YieldSites = map[string]bool{"consumer.trackoffset": true}
+		}
 	case "C01":
 		c.W.Crash = 1
 		if c.Faults {
@@ -276,6 +279,9 @@ func (s *scLife) MemberActions(w *World, m *Member) []Action {
 	acts = append(acts, Action{ID: "commit|" + id, W: c.W.Commit, Do: func() {
 		m.call("Commit", func() string { m.d.Commit(); return "" })
 	}})
+	if c.YieldSites["consumer.trackoffset"] && !m.trackPark {
+		acts = append(acts, Action{ID: "parktrack|" + id, W: 3, Do: func() { w.mu.Lock(); m.trackPark = true; w.mu.Unlock() }})
+	}
 	acts = append(acts, Action{ID: "close|" + id, W: s.closeWeight(w, m), Do: func() { w.closeMember(m) }})
 	acts = append(acts, Action{ID: "crash|" + id, W: c.W.Crash, Do: func() { m.crash() }})
 	if !m.scraping {
